@@ -8,10 +8,11 @@ import importlib
 rp = json.load(open(sys.argv[1])); pid = rp['property']
 mod = importlib.import_module('props.' + pid.lower())
 os.environ['VERIF_ONLY'] = rp['case']
-cases = mod.cases('thorough')
+cases = mod.cases('thorough') + (mod.cases('quick') if not isinstance(mod.cases('quick'), tuple) else [])
 if isinstance(cases, tuple): cases = cases[0]
 c = [x for x in cases if x.name == rp['case']][0]
-c2 = Case(c.name + '_dbg', c.fixture, c.harness, rp['defs'], native_defs=c.native_defs)
+defs = [d for d in rp['defs'] if not d.startswith('VF_TABLES=')] + [d for d in c.defs if d.startswith('VF_TABLES=')]
+c2 = Case(c.name + '_dbg', c.fixture, c.harness, defs, native_defs=c.native_defs)
 exe = native_pair(c2, c.fixture['workdir'])
 env = dict(os.environ, VF_DEBUG='1', VF_INPUTS=','.join(str(v) for v in rp['runs'][0]['inputs']))
 import subprocess; print(subprocess.run([exe], env=env, stdout=subprocess.PIPE, stderr=subprocess.STDOUT, universal_newlines=True).stdout)
